@@ -1,4 +1,5 @@
 import PyodaProofs.C04
+import PyodaProofs.C04Spec
 
 #print axioms Pyoda.C04.search_spec
 #print axioms Pyoda.C04.precalc_get_contains
@@ -8,3 +9,7 @@ import PyodaProofs.C04
 #print axioms Pyoda.C04.fixed_partition
 #print axioms Pyoda.C04.tail_seam
 #print axioms Pyoda.C04.altmap_get_shape
+#print axioms Pyoda.C04.precalc_spec
+#print axioms Pyoda.C04.agrees
+#print axioms Pyoda.C04.dataOK_sound
+#print axioms Pyoda.C04.dataOK_gives_spec
